@@ -308,6 +308,7 @@ pub fn explicit_full(bdd: &Bdd, ctx: &SymbolicContext, bn: &BooleanNetwork, k: u
 }
 
 /// Build a raw symbolic set from full tuples [colour, state, x_1, ..., x_k] (inverse of `explicit_full`).
+#[allow(dead_code)]
 pub fn set_of_full_tuples(tuples: &[Vec<u64>], ctx: &SymbolicContext, bn: &BooleanNetwork, k: usize) -> GraphColoredVertices {
     let rows = colour_rows(ctx, bn);
     let svars = ctx.state_variables().clone();
